@@ -124,9 +124,9 @@ Inc(p, n) ==
     /\ IF EffMode(mf) = "off"
        THEN UNCHANGED <<files, hist>>
        ELSE LET b == Begin(day)  e == End(day, wend)
-                Bump(cs) == LET old == {c \in cs : c.p = p /\ c.b = b /\ c.e = e /\ c.n = n}
+                BumpCount(cs) == LET old == {c \in cs : c.p = p /\ c.b = b /\ c.e = e /\ c.n = n}
                             IN (cs \ old) \cup {[p |-> p, b |-> b, e |-> e, n |-> n, v |-> SumV(old) + 1]}
-            IN files' = Bump(files) /\ hist' = Bump(hist)
+            IN files' = BumpCount(files) /\ hist' = BumpCount(hist)
     /\ last' = Lbl("inc", p, n, "", 0, TRUE, 0, 0)
     /\ UNCHANGED <<base, day, tod, wend, mf, local, ready, uploaded, store, merged, charts, resp, built, nRun, nDown, nSet, nWork>>
 
